@@ -69,6 +69,9 @@ def check(ctx):
     configs = ["native"] if ctx.tier == "quick" else ["native", "portable", "native-rel", "portable-rel"]
     for cfg in configs:
         check_config(ctx, ctx.facts(cfg), "" if cfg == "native" else "@" + cfg)
+    if ctx.tier == "thorough":
+        import witness
+        witness.run(ctx, "C18")
 
 
 def check_config(ctx, F, tag):
